@@ -65,6 +65,10 @@ def build(case):
             # the timer must be armed although another policy postpones
             # the start
             pol['wait-before'] = case['wb']
+        if kind == 'timeout' and case.get('idle') == 'pause-before':
+            # the task is incomplete but not running (the workflow paused
+            # itself in front of it) when the timer fires
+            pol['pause-before'] = True
     elif kind == 'fail-on':
         pol['fail-on'] = '<% $.ff %>'
     elif kind == 'pause-before':
@@ -154,6 +158,15 @@ def cases(seed, tier):
             c['wb'] = prng.choice([0, 0, 1])
             if c['wb']:
                 c['value'] = c['wb'] + prng.randint(1, 2)
+            # the task is incomplete but *not running* when the timer fires:
+            # the workflow paused itself in front of it (pause-before), or
+            # its running asynchronous action was paused by the operator
+            c['idle'] = prng.choice([None, None, 'pause-before',
+                                     'action-paused'])
+            if c['idle']:
+                c['late'] = True
+                c['wb'] = 0
+                c['defaults'] = False
         elif kind == 'fail-on':
             c['ff'] = prng.random() < 0.5
         out.append(c)
@@ -209,7 +222,35 @@ def run_case(case):
         c['warm'] = {'start': {'wf': 'wf', 'input': winp}, 'outcomes': []}
     phases = []
     state = {}
-    if kind == 'timeout':
+    if kind == 'timeout' and case.get('idle'):
+        c['hold_async'] = True
+        c['outcomes'] = [{'t': 't', 'outcome': ['never']}]
+        if case['idle'] == 'action-paused':
+            def pause_action(w):
+                if state.get('paused'):
+                    return
+                acts = [a for a in w.rec.rows['action'].values()
+                        if (a.j('input') or {}).get('t') == 't' and
+                        a['state'] == 'RUNNING']
+                if acts:
+                    state['paused'] = acts[0]['id']
+                    w.command('on_action_update', acts[0]['id'], 'PAUSED')
+            c['_boundary'] = pause_action
+
+        def after_timer(w):
+            state['t_at_q'] = [(t['state'], (t.get('state_info') or '')[:60])
+                               for t in w.rec.rows['task'].values()
+                               if t['name'] == 't']
+            state['runs_at_q'] = len([ev for ev in w.rec.events
+                                      if ev['kind'] == 'ACTION_RUN' and
+                                      ev['t'] == 't'])
+            root = w.root()
+            if root is not None and root['state'] == 'PAUSED':
+                w.op_resume(root['id'])
+                return True
+            return False
+        phases.append(after_timer)
+    elif kind == 'timeout':
         c['hold_async'] = True
         if case['late']:
             # withhold the result until the timer has fired
@@ -242,7 +283,13 @@ def run_case(case):
             w.op_resume(root['id'])
             return True
         phases.append(resume)
-    run = ec.execute(c, phases=phases, exc_allow=('ValueError',))
+    bnd = c.pop('_boundary', None)
+
+    def hook(w):
+        if bnd is not None:
+            w.on_boundary = bnd
+    run = ec.execute(c, phases=phases, exc_allow=('ValueError',),
+                     setup_hook=hook)
     res['executions'] += 1
     ec.merge_counts(res['events'], run.events)
     ec.merge_counts(res['monitor_evaluations'], run.mon_evals)
@@ -255,7 +302,7 @@ def run_case(case):
     desc = {k: case.get(k) for k in ('kind', 'style', 'defaults', 'join',
                                      'async', 'value', 'delay', 'seq',
                                      'use_brk', 'use_cont', 'brk', 'cont',
-                                     'ff', 'late', 'wb', 'wa',
+                                     'ff', 'late', 'wb', 'wa', 'idle',
                                      'big_timeout', 'warm')}
     for v in run.violations:
         if v.get('mech') == 'stuck' and kind == 'timeout':
@@ -363,6 +410,25 @@ def run_case(case):
                      'created at t=%s' % (case['value'], done, e_created))
         if t['state'] != 'SUCCESS':
             viol('wait-after-state', 'task ends %s' % t['state'])
+    elif kind == 'timeout' and case.get('idle'):
+        # incomplete (IDLE in front of pause-before / PAUSED with its
+        # action) when the timer fired: ERROR with the timeout message by
+        # the time everything has drained, and the resume does not start it
+        at_q = state.get('t_at_q')
+        if not at_q or at_q[0][0] != 'ERROR' or \
+                'timed out' not in at_q[0][1].lower():
+            viol('timeout-not-applied',
+                 'timeout %s on a task that was incomplete but not running '
+                 '(%s) when the timer fired: the task is %s when everything '
+                 'has drained and the clock has passed the timeout' % (
+                     case['value'], case['idle'], at_q))
+        if case['idle'] == 'pause-before' and \
+                len(runs) > (state.get('runs_at_q') or 0):
+            viol('timeout-task-started-after-timeout',
+                 'the action of the timed-out task was started by the '
+                 'resume')
+        if t['state'] != 'ERROR':
+            viol('timeout-not-applied', 'task ends %s' % t['state'])
     elif kind == 'timeout':
         if case['late']:
             if t['state'] != 'ERROR' or 'timed out' not in (
